@@ -47,10 +47,11 @@ class RngRecorder:
 
         class Proxy:
             def __init__(s, g):
-                s._g, s.log = g, []
+                s._g, s.log, s.calls = g, [], []
 
             def choice(s, *a, **k):
                 r = s._g.choice(*a, **k)
+                s.calls.append(("choice", a, dict(k)))
                 if rec.identity and k.get("p") is not None and k.get("replace", True):
                     r = np.arange(int(k["size"]))
                 s.log.append(("choice", np.atleast_1d(r).tolist()))
@@ -210,7 +211,7 @@ def slice_params(sl, fields, gen_log, n, reps):
             for lag in lags[1:]:
                 tbl = []
                 for f in fields:
-                    _, idx = next(it)
+                    _, idx = next(it, (None, []))        # a failed call leaves a short log
                     tbl.append([f, [int(j) for j in idx]])
                 I.append([w_rat(lag), tbl])
             out.append({"I": I})
@@ -641,6 +642,36 @@ def correspondence(ctx):
             ctx.fail("bootstrap: one np.random.default_rng(seed) per slice is expected (identical for identical seeds); "
                      "a different number of generators was created", {"t": w_cells(t.cells), "n": n, "seed": seed},
                      {"generators": len(rec.gens), "slices": len(slices)})
+        # the RNG interface of the age-to-age path: the probability vector `p` of every choice() call is the slice's
+        # volume weights (Model ataWeights: _normalize, eval_date_resolution), the same for every replicate; each
+        # call is choice(range(len(p)), size=len(p), p=p, replace=True)
+        if st == "ok" and n > 0 and len(rec.gens) == len(slices):
+            wbudget = 3
+            for sl, g, mth in zip(slices, rec.gens, methods):
+                if mth != "atas" or wbudget <= 0:
+                    continue
+                wbudget -= 1
+                flds = sel if field is not None else sl.fields
+                lags = sorted({c.dev_lag() for c in sl})[1:]
+                per = len(lags) * len(flds)
+                calls = g.calls
+                ok_shape = len(calls) == per * n and all(
+                    ck.get("p") is not None and ck.get("replace", True) is True and
+                    len(ck["p"]) == int(ck.get("size", -1)) == len(ca[0]) for _, ca, ck in calls)
+                same = ok_shape and all(np.array_equal(calls[j][2]["p"], calls[j % per][2]["p"]) for j in range(len(calls)))
+                ctx.count("bootstrap/rng-interface-weights")
+                if not ok_shape or not same:
+                    ctx.fail("bootstrap (age-to-age): every replicate must draw, per lag and field, "
+                             "choice(range(m), size=m, p=volume weights, replace=True) with the SAME p",
+                             {"t": w_cells(t.cells), "n": n, "seed": seed, "field": field},
+                             {"calls": len(calls), "expected": per * n, "same_p": bool(same)})
+                    continue
+                it = iter(calls[:per])
+                impl_w = [[w_rat(lag), [[f, rats([float(x) for x in next(it)[2]["p"]])] for f in flds]] for lag in lags]
+                reqs.append({"op": "weights", "s": w_cells(sl.cells), "fields": list(flds),
+                             "tol": w_rat(Fraction(1, 1 << 40)), "impl": impl_w})
+                post.append(("weights", {"slice": w_cells(sl.cells), "fields": list(flds), "n": n, "seed": seed},
+                             {"ok": impl_w}))
         for mth in methods:
             ctx.count(f"bootstrap/method={mth}")
         if len(set(methods)) > 1:
@@ -785,6 +816,19 @@ def correspondence(ctx):
         idx = []
         if rec.gens and rec.gens[0].log:
             idx = [int(x) for x in rec.gens[0].log[0][1]]
+            # the RNG interface (Properties.C17.ValidDraw): ONE call choice(n, k, replace=False) on one generator,
+            # answering k pairwise distinct positions below n
+            _, ca, ck = rec.gens[0].calls[0]
+            pop = ca[0] if ca else ck.get("a")
+            size = ca[1] if len(ca) > 1 else ck.get("size")
+            repl = ca[2] if len(ca) > 2 else ck.get("replace", True)
+            ctx.count("thin/rng-interface-checked")
+            if len(rec.gens) != 1 or len(rec.gens[0].calls) != 1 or pop != ns or size != k or repl is not False \
+                    or len(idx) != k or len(set(idx)) != k or any(not 0 <= j < ns for j in idx):
+                ctx.fail("thin: the positions must come from ONE draw choice(num_samples, k, replace=False)",
+                         {"t": w_cells(t.cells), "k": k, "seed": seed},
+                         {"generators": len(rec.gens), "calls": len(rec.gens[0].calls), "population": str(pop),
+                          "size": str(size), "replace": str(repl), "idx": idx})
         wire_t = w_cells(t.cells)
         shown = {"t": wire_t, "k": k, "seed": seed, "sequence": tag}
         rel = "eq" if k == ns else "gt" if k > ns else "lt"
@@ -924,6 +968,10 @@ def correspondence(ctx):
                 ctx.disagree(f"reimposeRank vs {shown['which']}", shown, model, rats(d))
             continue
         if kind == "moments":
+            continue
+        if kind == "weights":
+            if "err" in model:
+                ctx.disagree("volume weights: the model fails where the implementation drew", shown, model, d)
             continue
         if kind == "me":
             info = out.get("info") or {}
